@@ -83,9 +83,9 @@ SeqOf(S) == LET RECURSIVE F(_)
 \* for a missing frame; raising is accepted, a list with a made-up position is not)
 VertexPosition(s, v, t0, tmax) ==
   LET FS == SpanFrames(s, t0, tmax)
-      Q(G) == PointByMap(s, v, t0 + 1, G)
-  IN  IF \E G \in FS : Q(G) = Undef THEN <<"refused">>
-      ELSE <<"list", [i \in 1..Cardinality(FS) |-> LET G == SeqOf(FS)[i] IN s.pos[G][Q(G)]]>>
+      QQ(G) == PointByMap(s, v, t0 + 1, G)
+  IN  IF \E G \in FS : QQ(G) = Undef THEN <<"refused">>
+      ELSE <<"list", [i \in 1..Cardinality(FS) |-> LET G == SeqOf(FS)[i] IN s.pos[G][QQ(G)]]>>
 
 \* Velocity(p, F): finite difference towards the tracked partner in the NEXT frame (previous frame at the last
 \* frame) over the real elapsed time; zero without partner; refused when that step was skipped.
@@ -186,7 +186,7 @@ IVertexPosition(s, v, t0, tmax) ==
       ELSE <<"list", [i \in 1..Cardinality(FS) |-> LET G == SeqOf(FS)[i] IN <<L(G)[2], L(G)[3]>>]>>
 
 \* calculate_velocity: the step is tested for None first, KeyError -> fictitious vertex (zero)
-IVelocity(s, p, F) ==
+IQVelocity(s, p, F) ==
   LET G == VOther(s, F)  dt == s.stamp[G] - s.stamp[F] IN
   IF s.ims[VStep(s, F)].none THEN <<"dte">>
   ELSE LET l == ILookup(s, G, IPoint(s, p, F, G)) IN
@@ -197,7 +197,7 @@ IVelocity(s, p, F) ==
 IWholeVelStore(s, store, F) ==
   IF s.ims[VStep(s, F)].none THEN store
   ELSE [i \in DOMAIN store \cup 1..Len(s.ifc[F]) |->
-          IF i \in 1..Len(s.ifc[F]) THEN <<F, <<IVelocity(s, s.ifc[F][i][1], F), IVelocity(s, s.ifc[F][i][2], F)>>>>
+          IF i \in 1..Len(s.ifc[F]) THEN <<F, <<IQVelocity(s, s.ifc[F][i][1], F), IQVelocity(s, s.ifc[F][i][2], F)>>>>
           ELSE store[i]]
 IWholeVel(s, store, F) == IF s.ims[VStep(s, F)].none THEN <<"dte">> ELSE <<"dict", IWholeVelStore(s, store, F)>>
 
@@ -209,11 +209,11 @@ IEdgeStepVel(s, a, b, F0, G) ==
   ELSE IF r0[2] = NoneV \/ r1[2] = NoneV THEN <<"nan">>
   ELSE IF r0[2] \notin 1..s.k[G] \/ r1[2] \notin 1..s.k[G] THEN <<"key">>        \* vertices[stale id]
   ELSE IF s.ims[VStep(s, G)].none THEN <<"nan">>
-  ELSE <<"sum", IVelocity(s, r0[2], G), IVelocity(s, r1[2], G)>>
+  ELSE <<"sum", IQVelocity(s, r0[2], G), IQVelocity(s, r1[2], G)>>
 
-\* times_to_use: arg = "default" | "true" | an integer. `t` is the loop variable: UnboundLocalError for an empty range
+\* times_to_use: arg = -1 (default, last_frame=False) | -2 (last_frame=True) | a positive integer. `t` is the loop variable: UnboundLocalError for an empty range
 ITimesToUse(s, arg) ==
-  LET hi == IF arg = "default" THEN s.nf - 1 ELSE IF arg = "true" THEN 0 ELSE arg - 1 IN     \* range(0, hi)
+  LET hi == IF arg = -1 THEN s.nf - 1 ELSE IF arg = -2 THEN 0 ELSE arg - 1 IN     \* range(0, hi)
   IF hi <= 0 THEN <<"unbound">>
   ELSE IF hi > s.nf - 1 THEN <<"key">>
   ELSE <<"list", <<-1>> \o SeqOf({f - 1 : f \in {g \in 1..hi : s.ims[g].none}}) \o <<hi>>>>
@@ -232,7 +232,7 @@ KF_QuerySkippedStep(skipped, outcome) == skipped /\ outcome \in {"value", "attr"
 KF_WholeStaleKeys(extraKeys, maxAskedBefore, nHere) == extraKeys # {} /\ \A i \in extraKeys : i > nHere /\ i <= maxAskedBefore
 \* findings/tsq_times_to_use_true.py: the documented `last_frame: bool` - times_to_use(True) (and the count 1) make the
 \* loop range empty and the function raises UnboundLocalError
-KF_TimesToUseTrue(arg, raised) == arg \in {"true", 1} /\ raised = "UnboundLocalError"
+KF_TimesToUseTrue(arg, raised) == arg \in {-2, 1} /\ raised = "UnboundLocalError"
 \* findings/tsq_cm_filter_none.py: with cm=True the frames are translated in place but the interfaces keep the
 \* coordinates cached at construction; Frame.filter_edges("none") ("no filtering") writes the cached coordinates
 \* back: every interface vertex jumps back by the frame's centre of mass
